@@ -7,9 +7,12 @@ the empty string, `~` is Python `None`).  Lines:
   reset
       forget the exports and the history                                  -> ok
   export <path> <nclasses> {<hasIfaces 0|1> <nifaces> {<name> <nmethods> {<name> <sigIn> <sigOut> <nret>}}
-                            <nattrs> {<attr> <funcId> <0 | 1 iface member> <nparams> {<param>}}}
+                            <nattrs> {<attr> <funcId> <0 | 1 iface member> <nparams> {<param>}}
+                            <nprops> {<number of functions before it in the class body> <interface>}}
       `exports[path] = obj` before the history starts (class chain in `__mro__` order; <param> =
       names of the positional parameters, self included)                  -> ok
+  h1 <line>                  the line (export / opexport / opunexport / call / resolve) addresses the SECOND handler of the
+                             scenario (own exports, own pending Deferreds; every operation counts for both)
   opexport <path> <obj>      operation of the history: exportObject      -> none
   opunexport <path>          operation of the history: unexportObject    -> none
   opfailed                   an exportObject of the history that raised (a class the library cannot use): the
@@ -126,7 +129,9 @@ def cls : P Class := do
   let is ← rep iface n
   let k ← nat
   let as ← rep attr k
-  pure { ifaces := if h then some is else none, attrs := as }
+  let np ← nat
+  let ps ← rep (do let pos ← nat; let i ← str; pure (pos, i)) np
+  pure { ifaces := if h then some is else none, attrs := as, propKeys := ps }
 
 def exc : P Exc := do
   let c ← str
@@ -191,6 +196,8 @@ structure PSt where
 
 structure St where
   st : State := State.init []
+  /-- the dispatcher of the SECOND handler of the scenario (lines prefixed `h1`); both count every operation -/
+  st1 : State := State.init []
   p : PSt := {}
 
 def showOpt : Option Str → String
@@ -409,7 +416,8 @@ def showClassToks (c : Class) : List String :=
       (match a.2.deco with
        | some (i, m) => ["1", Driver.charsToHex i, Driver.charsToHex m]
        | none => ["0"]) ++
-      [toString a.2.params.length] ++ a.2.params.map Driver.charsToHex)
+      [toString a.2.params.length] ++ a.2.params.map Driver.charsToHex) ++
+    [toString c.propKeys.length] ++ c.propKeys.flatMap (fun p => [toString p.1, Driver.charsToHex p.2])
 
 def pEnv (managed : Option Exc) : Env PV :=
   { managedErr := fun _ => managed
@@ -501,33 +509,39 @@ def stepLine (d : PSt) (ws : List String) : PSt × String :=
 
 end P17
 
-def stepLine (s : St) (line : String) : St × String :=
-  match Driver.words line with
+/-- operation lines advance the operation counter of the handler they do NOT address too -/
+def isOpLine (w : String) : Bool :=
+  w == "opexport" || w == "opunexport" || w == "opfailed" || w == "call" || w == "resolve"
+
+def bump (s : State) : State := { s with next := s.next + 1 }
+
+def stepLine0 (s : St) (ws : List String) : St × String :=
+  match ws with
   | ["reset"] => ({}, "ok")
   | "export" :: ts =>
     match finish parseExport ts with
-    | some (path, o) => ({ st := { s.st with exports := dictSet s.st.exports path o } }, "ok")
+    | some (path, o) => ({ s with st := { s.st with exports := dictSet s.st.exports path o } }, "ok")
     | none => (s, "parse-error")
   | "opexport" :: ts =>
     match finish parseExport ts with
-    | some (path, o) => ({ st := (step quietEnv s.st (.exportObj path o)).1 }, "none")
+    | some (path, o) => ({ s with st := (step quietEnv s.st (.exportObj path o)).1 }, "none")
     | none => (s, "parse-error")
   | ["opfailed"] => ({ s with st := { s.st with next := s.st.next + 1 } }, "none")
   | ["opunexport", p] =>
     match Driver.hexToChars? p with
-    | some path => ({ st := (step quietEnv s.st (.unexportObj path)).1 }, "none")
+    | some path => ({ s with st := (step quietEnv s.st (.unexportObj path)).1 }, "none")
     | none => (s, "parse-error")
   | "call" :: ts =>
     match finish parseCall ts with
     | some (env, op) =>
       let r := step env s.st op
-      ({ st := r.1 }, showEvents r.2)
+      ({ s with st := r.1 }, showEvents r.2)
     | none => (s, "parse-error")
   | "resolve" :: ts =>
     match finish parseResolve ts with
     | some (env, op) =>
       let r := step env s.st op
-      ({ st := r.1 }, showEvents r.2)
+      ({ s with st := r.1 }, showEvents r.2)
     | none => (s, "parse-error")
   | w :: ts =>
     if w.startsWith "p" then
@@ -535,6 +549,18 @@ def stepLine (s : St) (line : String) : St × String :=
       ({ s with p := r.1 }, r.2)
     else (s, "parse-error")
   | _ => (s, "parse-error")
+
+/-- `h1 <line>`: the line addresses the second handler of the scenario. -/
+def stepLine (s : St) (line : String) : St × String :=
+  match Driver.words line with
+  | "h1" :: w :: ts =>
+    let r := stepLine0 { s with st := s.st1, st1 := s.st } (w :: ts)
+    if r.2 == "parse-error" then (s, "parse-error")
+    else ({ r.1 with st := if isOpLine w then bump r.1.st1 else r.1.st1, st1 := r.1.st }, r.2)
+  | w :: ts =>
+    let r := stepLine0 s (w :: ts)
+    if isOpLine w && r.2 != "parse-error" then ({ r.1 with st1 := bump r.1.st1 }, r.2) else r
+  | [] => (s, "parse-error")
 
 end Driver.C10
 
